@@ -173,6 +173,14 @@ def explore_state(acc, pendulum, z, inst, inter, deep=True, kinds=True):
     if us == 0 or abs(s) < (1 << 31):
         routes.append(("from_timestamp(float)", pendulum.from_timestamp(inst / US, tz=tzobj)))
     routes.append(("instance(pendulum-native)", pendulum.instance(nu.astimezone(tzobj))))
+    if isinstance(z, int) and z % 60 == 0:
+        # the target given as a NUMBER of hours (int for whole hours, else float: -3.5, 5.75, -23.983...)
+        hz = z // 3600 if z % 3600 == 0 else z / 3600
+        routes.append(("in_timezone(hours)", u.in_timezone(hz)))
+        routes.append(("in_tz(hours)", u.in_tz(hz)))
+        if us == 0:
+            routes.append(("from_timestamp(int,tz=hours)", pendulum.from_timestamp(s, tz=hz)))
+        routes.append(("instance(native-utc,tz=hours)->in_tz", pendulum.instance(nu).in_tz(hz)))
     conv = tzobj.convert(nu)
     routes.append(("Timezone.convert(native)", conv))
     keys = set()
